@@ -147,6 +147,9 @@ func classify(status string, funcs []string) string {
 		case fn == "(*Block).Close" && above == "sync.(*WaitGroup).Wait":
 			return "block.pendingReaders"
 		case fn == "(*Head).WaitForPendingReadersInTimeRange" && above == "time.Sleep":
+			if i+1 < len(funcs) && strings.HasSuffix(funcs[i+1], "(*Head).truncateSeries") {
+				return "series.readers"
+			}
 			return "head.readers"
 		case fn == "(*Head).WaitForPendingReadersForOOOChunksAtOrBefore" && above == "time.Sleep":
 			return "ooo.readers"
@@ -167,9 +170,10 @@ const (
 // mayBlock says whether, from what the scheduler knows (position of the actor, live queriers),
 // the actor can be inside one of the protocol's waits at all; only then the goroutine is
 // inspected eagerly (an inspection stops the world and is expensive on a loaded machine).
+// fresh: the actor was just resumed and no other actor ran since.
 // condFalse(wait) evaluates, on the real state, whether the condition a polling wait is
 // waiting for is still false.
-func await(a *actor, mayBlock bool, condFalse func(wait string) bool) (kind int, site string) {
+func await(a *actor, mayBlock, fresh bool, condFalse func(wait string) bool) (kind int, site string) {
 	delay := 3 * time.Millisecond
 	if !mayBlock {
 		delay = 3 * time.Second // safety net only
@@ -191,8 +195,14 @@ func await(a *actor, mayBlock bool, condFalse func(wait string) bool) (kind int,
 		st, fs := goroutineInfo(a.gid)
 		if w := classify(st, fs); w != "" {
 			blocked := true
-			if w == "head.readers" || w == "ooo.readers" {
+			if w == "head.readers" || w == "ooo.readers" || w == "series.readers" {
 				blocked = condFalse(w)
+				if w == "series.readers" && fresh {
+					// the actor was resumed by itself: nothing changed since it evaluated the wait
+					// condition, so sleeping in the loop means the condition is false (this also
+					// covers a tree in which truncateSeries waits for readers starting at maxt)
+					blocked = true
+				}
 			}
 			if blocked {
 				a.parked, a.wait = true, w
@@ -207,4 +217,3 @@ func await(a *actor, mayBlock bool, condFalse func(wait string) bool) (kind int,
 		}
 	}
 }
-
